@@ -117,6 +117,7 @@ type Exec struct {
 	cl         *closeState
 	lastDir    string
 	dirPrefix  string
+	failedIDs  map[uint64]bool // entries submitted by StoreLogs calls that returned an error
 	aborted    bool // a foreign oracle failed in a way that makes the rest of the run meaningless
 }
 
@@ -191,7 +192,7 @@ var oraclesOf = map[string][]string{
 	"C14": {"racing-call-result", "closed-is-final", "handles-released", "close", "no-panic", "no-deadlock", "bounded-progress", "acked-entries-survive", "open-succeeds"},
 	"C08": {"stable-get", "stable-map", "stable-no-aliasing", "contiguous-readable", "content-equal", "bounds", "open-succeeds"},
 	"C09": {"format"},
-	"C10": {"open-succeeds", "contiguous-readable", "content-equal", "bounds", "api-error", "no-panic", "model-accepts"},
+	"C10": {"open-succeeds", "contiguous-readable", "content-equal", "bounds", "api-error", "no-panic", "model-accepts", "failed-append-invisible"},
 	"C11": {"no-panic", "bounded-work", "bounded-alloc", "failed-open-releases", "no-silent-shortening", "decode-robust"},
 	"C12": {"no-aliasing", "content-equal", "contiguous-readable", "bounds", "codec-identity", "open-succeeds"},
 	"C13": {"dir-matches-metadata", "segment-id-unique", "handles-released"},
@@ -1179,6 +1180,14 @@ func (ex *Exec) doAppend(op OpSpec) {
 		if within && ex.or.Rejected(mop) != "" {
 			ex.violate("within-limit-accepted", "refused-within-size-limit:"+errClass(err), "StoreLogs refused a legal batch whose entries all encode to at most %d bytes: %v", segment.MaxEntrySize, err)
 			return
+		}
+	}
+	if err != nil {
+		if ex.failedIDs == nil {
+			ex.failedIDs = map[uint64]bool{}
+		}
+		for _, e := range es {
+			ex.failedIDs[e.ID] = true
 		}
 	}
 	if err == nil {
